@@ -291,6 +291,9 @@ def variants(prog, opts, rng):
         for w in ("closed", "active"):
             out.append({"mode": "ovprobe", "sels": [{"focus": dv, "ctx": []}], "supply": 561, "warm": f"{w}:{other}"})
             out.append({"mode": "probe", "sels": [{"focus": dv, "ctx": []}], "warm": f"{w}:{other}"})
+        # an earlier lifetime had the declared variable AND another one instrumented; now a probe wants the other one only: the
+        # declaration is a plain declaration again (whatever variants were compiled before)
+        out.append({"mode": "probe", "sels": [{"focus": other, "ctx": []}], "warm": f"closedpair:{other}"})
         # a conditional override: it supplies during the first call and declines during the second (same probe, still active)
         out.append({"mode": "ovseq", "sels": [{"focus": dv, "ctx": []}], "supply": 564})
         if prog["decl"].get("tag"):
@@ -338,10 +341,11 @@ def run_variant(runner, var, script):
         # earlier life of the function: a probe on another variable, already closed or still active
         state, wv = rec["warm"].split(":")
         try:
-            wp = probing(f"{runner.name} > {wv}", env={runner.name: fn})
+            text = f"{runner.name} > {wv}" if state != "closedpair" else f"{runner.name}({runner.prog['decl']['var']}) > {wv}"
+            wp = probing(text, env={runner.name: fn})
             wp.subscribe(lambda d: None)
             wstack.enter_context(wp)
-            if state == "closed":
+            if state in ("closed", "closedpair"):
                 wstack.close()
         except BaseException as ex:
             rec["act_err"] = "warm:" + type(ex).__name__
